@@ -120,6 +120,9 @@ def leadingFails : List Bool → Nat
 def setFails (f : Nat → List Bool) (h : Nat) (v : List Bool) : Nat → List Bool :=
   fun x => if x == h then v else f x
 
+/-- the v0 rule is in `taskHandleHookRun` (a tree without it breaks every proof below) -/
+theorem v0RuleFact_true : v0RuleFact = true := rfl
+
 /-- what a task that is retried until it succeeds writes to the log -/
 def retryLog (t : Task) (script : List Bool) : List Ev :=
   List.replicate (leadingFails script) (.exec t.hook true t.ctxs) ++ [.exec t.hook false t.ctxs] ++
@@ -233,6 +236,7 @@ theorem prepare_no_combine (stop : Bool) (hooks : List Hook) (t : Task) (rest : 
     prepare stop hooks t rest =
       (!(t.isSync && (!(findHook hooks t.hook).v1 || !t.execSync)), t, rest) := by
   unfold prepare
+  simp only [v0RuleFact_true, Bool.true_and]
   simp only [combine_none stop t rest h]
   split
   · split <;> rfl
@@ -454,6 +458,7 @@ theorem prepare_grouped (stop : Bool) (hooks : List Hook) (h : Hook) (hfind : fi
         (bs.dropWhile (mergeable stop)).map (syncTask h.name) ++ Q) := by
   have htw := takeWhile_sync stop (syncTask h.name b) h.name rfl rfl Q hQ bs
   unfold prepare
+  simp only [v0RuleFact_true, Bool.true_and]
   have hs : (syncTask h.name b).isSync = true := rfl
   simp only [hs, show findHook hooks (syncTask h.name b).hook = h from hfind, hv,
     show (syncTask h.name b).execSync = true from he,
@@ -528,6 +533,7 @@ theorem run_sync_phase (stop : Bool) (hooks : List Hook) (h : Hook) (hfind : fin
           let rest := bs.map (syncTask h.name) ++ Q
           have hp : prepare stop hooks t rest = (true, t, rest) := by
             unfold prepare
+            simp only [v0RuleFact_true, Bool.true_and]
             have hs : t.isSync = true := rfl
             simp [hs, show t.hook = h.name from rfl, hfind, hv, show t.execSync = b.execSync from rfl, he,
               show t.group = b.group from rfl, hg]
@@ -587,6 +593,7 @@ theorem run_sync_phase (stop : Bool) (hooks : List Hook) (h : Hook) (hfind : fin
         let rest := bs.map (syncTask h.name) ++ Q
         have hp : prepare stop hooks t rest = (false, t, rest) := by
           unfold prepare
+          simp only [v0RuleFact_true, Bool.true_and]
           have hs : t.isSync = true := rfl
           have hx : (!(true && (!h.v1 || !b.execSync))) = false := by
             cases hv : h.v1 <;> cases he : b.execSync <;> simp_all
